@@ -44,4 +44,32 @@ def readUnbuffered (offer : Nat) (dgrams : List Bytes) : Option (Bytes × List B
 /-- the write half: one `send` per `write`, carrying exactly the bytes handed over -/
 def write (frame : Bytes) (sent : List Bytes) : List Bytes := sent ++ [frame]
 
+/-- what the owner of an adaptor can do with it: read with an offered slice size, flush the write half,
+write one frame. The adaptor's buffer is a *receive-side* hold-back buffer only: neither `flush` (a no-op;
+sends are unbuffered) nor `write` touches it. -/
+inductive AOp where
+  | rd (offer : Nat)
+  | fl
+  | wr (frame : Bytes)
+deriving Repr
+
+/-- adaptor state: hold-back buffer, datagrams still to arrive, datagrams sent so far -/
+structure ASt where
+  buf : Bytes
+  ds : List Bytes
+  sent : List Bytes
+
+/-- any interleaving of reads, flushes and writes; returns the chunks served and the final state.
+A read with nothing available ends the run (the call would block). -/
+def runOps : ASt → List AOp → List Bytes × ASt
+  | s, [] => ([], s)
+  | s, .rd o :: ops =>
+    match read s.buf o s.ds with
+    | none => ([], s)
+    | some (chunk, buf', ds') =>
+      let r := runOps { s with buf := buf', ds := ds' } ops
+      (chunk :: r.1, r.2)
+  | s, .fl :: ops => runOps s ops
+  | s, .wr f :: ops => runOps { s with sent := write f s.sent } ops
+
 end Insim.Udp
